@@ -523,6 +523,15 @@ def run(seed, sc, trace=None, tier='quick'):
                             _random.Random(spec['shuffle']).shuffle(slots)
                         task['description']['slots'] = slots
                         task['description']['partition'] = None
+                        if sc['layout'].get('prte_dvms'):
+                            # the application names the partition (DVM)
+                            # which holds all nodes of its placement
+                            dl = A.lm_info('PRTE', sc['layout'])[
+                                'details']['dvm_list']
+                            idx = {sl['node_index'] for sl in slots}
+                            for pid_, dv in dl.items():
+                                if idx <= set(dv['nodes']):
+                                    task['description']['partition'] = pid_
                         st['preplaced'].add(uid)
                         st['app_slots'][uid] = slots
                     if focus == 'exec':
